@@ -1055,6 +1055,12 @@ class C21(C.Check):
         return None
 
     def oracle(self, ctx, res, hints, budget):
+        try:
+            return self.oracle_(ctx, res, hints, budget)
+        finally:
+            cleanup_scratch(self.prop)
+
+    def oracle_(self, ctx, res, hints, budget):
         t0 = time.time()
         n = self.oracle_rng(ctx, res, budget)
         t1 = time.time()
